@@ -16,31 +16,8 @@ P = sf.PART
 
 
 def run(ctx, rep):
-    rep.rule('R01.ac', 'offset state has its confirmed writers and every assignment its confirmed normal form', floor=12, analysis='A1+A10')
-    sf.check(ctx, rep, 'R01.ac', part_fields=('current_offset', 'should_increment_offset'), seg_fields=('current_offset', 'end_offset', 'is_closed'))
-
+    offset_assignment(ctx, rep, 'R01.ac', 'R01.c2')
     b = ctx.fn_body(sf.APPEND)
-    # ------------------------------------------------------------ per-message offsets
-    rep.rule('R01.c2', 'per-message offset = base + k, base = current_offset+1 | 0, in both append loops; new segments start at end_offset + 1', floor=4, analysis='A10')
-    news = [c for c in b.calls if c.name.endswith('RetainedMessage::new') and is_user_call(c)]
-    if len(news) < 2:
-        rep.anchor_lost('R01.c2', 'RetainedMessage::new in both loops of append_messages')
-    for c in news:
-        f = canon(b.pexpr_operand(c.args[0], 0, frozenset(), (c.bb, "t")))
-        ok = f == '(phi{($u32 + 1) | 0} + phi{(1 + self.current_offset) | 0})'
-        rep.ob('R01.c2', sf.APPEND, 'message offset @%s' % ('dedup' if any(x.name.endswith('try_insert') for x in b.calls if b.dominates(x.bb, c.bb)) else 'plain'), ok, c.where(),
-               'offset = %s' % f if ok else 'message offset has the form `%s`, expected base + running count' % f)
-    for fn, label in ((sf.APPEND, 'roll-over'), ('server::channels::commands::maintain_messages::delete_segments', 'retention')):
-        bb_ = ctx.fn_body(fn)
-        cs = [c for c in bb_.calls if c.name.endswith('Partition::add_persisted_segment') and is_user_call(c)]
-        if not cs:
-            rep.anchor_lost('R01.c2', 'add_persisted_segment in ' + fn)
-        for c in cs:
-            pe = bb_.pexpr_operand(c.args[1], 0, frozenset(), (c.bb, "t"))
-            f = canon(pe)
-            inner = is_plus_one(pe)
-            ok = inner is not None and any(y[0] == 'field' and y[2] == 'end_offset' for y in walk(inner)) and not any(y[0] == 'bin' for y in walk(inner))
-            rep.ob('R01.c2', fn, 'new segment start (%s)' % label, ok, c.where(), 'start = %s' % f if ok else 'a new segment is created at `%s`, not at the previous end offset + 1' % f)
 
     # ------------------------------------------------------------ R01.d pairing in the loops
     rep.rule('R01.d', 'in both append loops the message counter is incremented exactly where a message is pushed; a duplicate (try_insert false) reaches neither', floor=3, analysis='A2')
@@ -134,6 +111,35 @@ def run(ctx, rep):
     sf_.check_constructors(ctx, rep, 'R01.i', {
         'Partition': ('current_offset', 'should_increment_offset', 'unsaved_messages_count', 'segments'),
         'Segment': ('start_offset', 'current_offset', 'end_offset', 'is_closed', 'max_size_bytes', 'size_bytes', 'last_index_position', 'unsaved_messages')})
+
+
+def offset_assignment(ctx, rep, ra, rc):
+    """shared with C12: one offset per message — writers and forms of the offset state, per-message offset = base + running count"""
+    rep.rule(ra, 'offset state has its confirmed writers and every assignment its confirmed normal form', floor=12, analysis='A1+A10')
+    sf.check(ctx, rep, ra, part_fields=('current_offset', 'should_increment_offset'), seg_fields=('current_offset', 'end_offset', 'is_closed'))
+
+    b = ctx.fn_body(sf.APPEND)
+    # ------------------------------------------------------------ per-message offsets
+    rep.rule(rc, 'per-message offset = base + k, base = current_offset+1 | 0, in both append loops; new segments start at end_offset + 1', floor=4, analysis='A10')
+    news = [c for c in b.calls if c.name.endswith('RetainedMessage::new') and is_user_call(c)]
+    if len(news) < 2:
+        rep.anchor_lost(rc, 'RetainedMessage::new in both loops of append_messages')
+    for c in news:
+        f = canon(b.pexpr_operand(c.args[0], 0, frozenset(), (c.bb, "t")))
+        ok = f == '(phi{($u32 + 1) | 0} + phi{(1 + self.current_offset) | 0})'
+        rep.ob(rc, sf.APPEND, 'message offset @%s' % ('dedup' if any(x.name.endswith('try_insert') for x in b.calls if b.dominates(x.bb, c.bb)) else 'plain'), ok, c.where(),
+               'offset = %s' % f if ok else 'message offset has the form `%s`, expected base + running count' % f)
+    for fn, label in ((sf.APPEND, 'roll-over'), ('server::channels::commands::maintain_messages::delete_segments', 'retention')):
+        bb_ = ctx.fn_body(fn)
+        cs = [c for c in bb_.calls if c.name.endswith('Partition::add_persisted_segment') and is_user_call(c)]
+        if not cs:
+            rep.anchor_lost(rc, 'add_persisted_segment in ' + fn)
+        for c in cs:
+            pe = bb_.pexpr_operand(c.args[1], 0, frozenset(), (c.bb, "t"))
+            f = canon(pe)
+            inner = is_plus_one(pe)
+            ok = inner is not None and any(y[0] == 'field' and y[2] == 'end_offset' for y in walk(inner)) and not any(y[0] == 'bin' for y in walk(inner))
+            rep.ob(rc, fn, 'new segment start (%s)' % label, ok, c.where(), 'start = %s' % f if ok else 'a new segment is created at `%s`, not at the previous end offset + 1' % f)
 
 
 def batch_forms(ctx, rep, rid):
